@@ -2,9 +2,10 @@ import H2V.Model.ConnProto
 import H2V.Lemmas.ConnRecvPExact
 /-
   C03 — part 15: the initial states of the two roles are initial states of `Reach`
-  (`Conn.init` / `Conn.initServer`), a checker for concrete op histories, and the FINDING:
-  DATA received on a pushed stream that the application never polls is never credited back to the
-  connection window (`leak_counterexample`).
+  (`Conn.init` / `Conn.initServer`), a checker for concrete op histories, and the history of the
+  former finding (repaired as F30): DATA received on a pushed stream that the application never
+  polls is now credited back to the connection window when the parent's last handle goes away
+  (`pushed_stream_data_credited_back`).
 -/
 namespace H2V.Lemmas.ConnRecvP
 open H2V H2V.Model H2V.Model.Conn
